@@ -620,8 +620,14 @@ type chanState struct {
 	closed bool
 }
 
+// goStmt runs the goroutine's function to completion right away: one legal schedule of a
+// fork-join (go ...; wg.Wait()) — the only use of goroutines inside encoded code
+// (Pipeline.executeModules runs the modules of a layer that way). A goroutine that
+// communicates over channels still ends in an unsupported channel operation. Other
+// interleavings are outside every claim.
 func (ex *Exec) goStmt(fr *frame, instr *ssa.Go, fn value, args []value) {
-	panic(unsupported{"go statement at " + ex.prog.Fset.Position(instr.Pos()).String()})
+	ex.notes = append(ex.notes, "go statement executed synchronously at "+ex.prog.Fset.Position(instr.Pos()).String())
+	ex.call(fr, instr.Pos(), fn, args)
 }
 
 func (ex *Exec) selectStmt(fr *frame, instr *ssa.Select) value {
